@@ -4,6 +4,7 @@ import (
 	"bytes"
 	"encoding/json"
 	"fmt"
+	"math/big"
 	"reflect"
 	"sort"
 	"strings"
@@ -23,15 +24,25 @@ type goField struct {
 	T         goTy   `json:"t"`
 }
 
+var goScalarKinds = []string{"bool", "string", "int", "int", "int8", "int16", "int32", "int64", "uint8", "uint16", "uint32", "uint64"}
+
+// the values around the limits of every integer width, and a few ordinary ones
+var goIntValues = []string{"0", "1", "-1", "42", "7", "127", "128", "-128", "-129", "255", "256", "32767", "32768", "-32768", "-32769", "65535", "65536",
+	"2147483647", "2147483648", "-2147483648", "-2147483649", "4294967295", "4294967296", "9223372036854775807", "9223372036854775808",
+	"-9223372036854775808", "-9223372036854775809", "18446744073709551615", "18446744073709551616", "9007199254740993"}
+
+var goIntTypes = map[string]reflect.Type{"int": reflect.TypeOf(int64(0)), "int8": reflect.TypeOf(int8(0)), "int16": reflect.TypeOf(int16(0)), "int32": reflect.TypeOf(int32(0)),
+	"int64": reflect.TypeOf(int64(0)), "uint8": reflect.TypeOf(uint8(0)), "uint16": reflect.TypeOf(uint16(0)), "uint32": reflect.TypeOf(uint32(0)), "uint64": reflect.TypeOf(uint64(0))}
+
 var goJSONNames = []string{"a", "b", "id", "name", "x-y", "Upper", "n1"}
 
 func genGoTy(r *Rng, depth int) goTy {
 	if depth <= 0 {
-		return goTy{K: r.Pick([]string{"bool", "int", "string"})}
+		return goTy{K: r.Pick(goScalarKinds)}
 	}
 	switch p := r.Intn(100); {
 	case p < 30:
-		return goTy{K: r.Pick([]string{"bool", "int", "string"})}
+		return goTy{K: r.Pick(goScalarKinds)}
 	case p < 45:
 		t := genGoTy(r, depth-1)
 		return goTy{K: "ptr", T: &t}
@@ -56,12 +67,15 @@ func (t goTy) reflectType() reflect.Type {
 	switch t.K {
 	case "bool":
 		return reflect.TypeOf(false)
-	case "int":
-		return reflect.TypeOf(int64(0))
 	case "string":
 		return reflect.TypeOf("")
 	case "ptr":
 		return reflect.PointerTo(t.T.reflectType())
+	}
+	if it, ok := goIntTypes[t.K]; ok {
+		return it
+	}
+	switch t.K {
 	case "slice":
 		return reflect.SliceOf(t.T.reflectType())
 	case "map":
@@ -94,11 +108,15 @@ func genValueFor(r *Rng, t goTy, depth int) oj {
 	if r.Chance(6) {
 		return genJunk(r)
 	}
+	if _, ok := goIntTypes[t.K]; ok {
+		if r.Chance(40) {
+			return json.Number(r.Pick(goIntValues[:5]))
+		}
+		return json.Number(r.Pick(goIntValues))
+	}
 	switch t.K {
 	case "bool":
 		return r.Bool()
-	case "int":
-		return []int{0, 1, -1, 42, 7}[r.Intn(5)]
 	case "string":
 		return r.Pick([]string{"", "a", "two words", "é\"\\", "0"})
 	case "ptr":
@@ -202,6 +220,53 @@ func fromOrdered(v interface{}) string {
 	return b.String()
 }
 
+// jsonEqualExact: equality of two JSON texts with numbers compared exactly (no float64 in between)
+func jsonEqualExact(a, b string) bool {
+	x, e1 := decodeNum(a)
+	y, e2 := decodeNum(b)
+	if e1 != nil || e2 != nil {
+		return false
+	}
+	var eq func(x, y interface{}) bool
+	eq = func(x, y interface{}) bool {
+		switch p := x.(type) {
+		case map[string]interface{}:
+			q, ok := y.(map[string]interface{})
+			if !ok || len(p) != len(q) {
+				return false
+			}
+			for k, v := range p {
+				w, ok := q[k]
+				if !ok || !eq(v, w) {
+					return false
+				}
+			}
+			return true
+		case []interface{}:
+			q, ok := y.([]interface{})
+			if !ok || len(p) != len(q) {
+				return false
+			}
+			for i := range p {
+				if !eq(p[i], q[i]) {
+					return false
+				}
+			}
+			return true
+		case json.Number:
+			q, ok := y.(json.Number)
+			if !ok {
+				return false
+			}
+			f, _, e1 := big.ParseFloat(string(p), 10, 300, big.ToNearestEven)
+			g, _, e2 := big.ParseFloat(string(q), 10, 300, big.ToNearestEven)
+			return e1 == nil && e2 == nil && f.Cmp(g) == 0
+		}
+		return reflect.DeepEqual(x, y)
+	}
+	return eq(x, y)
+}
+
 func corrGoJSON(ctx *Ctx, n int) error {
 	for i := 0; i < n; i++ {
 		r := ctx.Rng.Fork()
@@ -221,14 +286,20 @@ func corrGoJSON(ctx *Ctx, n int) error {
 			implOut = string(b)
 		}
 		var mres struct {
-			Decoded bool        `json:"decoded"`
-			Out     interface{} `json:"out"`
-			Valid   bool        `json:"valid"`
+			Decoded bool            `json:"decoded"`
+			Out     json.RawMessage `json:"out"`
+			Valid   bool            `json:"valid"`
+			InFrag  bool            `json:"infragment"`
 		}
 		if err := ctx.Model(J{"fn": "gojson", "type": t, "value": v}, &mres); err != nil {
 			return err
 		}
 		ctx.Res.Count("corr:gojson")
+		if !mres.InFrag {
+			// a type the model declares outside its fragment ([]uint8 is []byte: written as a base64 string)
+			ctx.Res.Count("corr:gojson:outside-fragment([]uint8)")
+			continue
+		}
 		if mres.Valid {
 			ctx.Res.Count("corr:gojson:valid-canonical")
 		}
@@ -241,12 +312,13 @@ func corrGoJSON(ctx *Ctx, n int) error {
 			ctx.Res.Count("corr:gojson:error")
 			continue
 		}
-		mout := fromOrdered(mres.Out)
-		if !jsonEqual(mout, implOut) {
+		mo, _ := decodeNum(string(mres.Out))
+		mout := fromOrdered(mo)
+		if !jsonEqualExact(mout, implOut) {
 			ctx.Res.Disagree("CORR encoding/json vs GoJson.encode∘decode", cs, mout, implOut)
 			continue
 		}
-		if mres.Valid && !jsonEqual(implOut, text.String()) {
+		if mres.Valid && !jsonEqualExact(implOut, text.String()) {
 			// the theorem's statement, on the implementation
 			ctx.Res.Disagree("CORR a value the model calls valid does not round-trip through encoding/json", cs, text.String(), implOut)
 		}
